@@ -91,6 +91,9 @@ def gen_cases(run):
         for r in range(7):
             px += F.max_row_pixels(body[r * 5 : (r + 1) * 5], mode)
         cases.append(_mk("max", F.MAX_FLAGS[mode] + ["-newsroom"], F.newsroom_file(5, 7, body), ("rgb", 40, 7, px), [], f"max newsroom {mode}"))
+        # the same picture behind a preamble that -s skips (header variant x option: both must compose), and with -w / -r that Newsroom ignores
+        cases.append(_mk("max", F.MAX_FLAGS[mode] + ["-newsroom", "-s", "3"], bytes([7, 3, 0x55]) + F.newsroom_file(5, 7, body), ("rgb", 40, 7, px), [], f"max newsroom skip {mode}"))
+        cases.append(_mk("max", F.MAX_FLAGS[mode] + ["-s", "1", "-newsroom", "-w", "16"], bytes([9]) + F.newsroom_file(5, 7, body), ("rgb", 40, 7, px), [], f"max newsroom skip width {mode}"))
     # full default picture 256x192
     body = C.body_lin(32 * 192, 7, 3)
     px = []
